@@ -228,3 +228,23 @@ def _mentions(v: Any, name: str) -> bool:
     if isinstance(v, T.Lin):
         return any(_mentions(t, name) for t in v.coef)
     return False
+
+
+def sign_summary_premise(prog: Program, rep: Any) -> None:
+    """The API analyses replace sign_packet_with_crc_key by its summary (p ++ 8 signature nibbles over p, raising on
+    bad hex).  That summary is C04's theorem; it is re-derived here on the current tree, and whatever C04 cannot
+    discharge is inherited as rule PREMISE-C04 (a violation of the signer is a violation of every frame property)."""
+    from .props import c04
+    from .report import DISCHARGED, Report, UNDECIDED, VIOLATED
+
+    sub = Report("C04", "quick", "proof")
+    c04.run(prog, sub, "quick")
+    rep.rule("PREMISE-C04", "the signer summary used for every written frame (p ++ LE16(crc(p)) ++ LE16(crc(LE16bytes ++ 0x30*32)), ValueError on bad hex) is derivable on this tree (C04's rules)", 1)
+    bad = [o for o in sub.obligations if o.verdict != DISCHARGED]
+    if not bad:
+        rep.ok("PREMISE-C04", "signer summary", "src/aioswitcher/device/tools.py sign_packet_with_crc_key", f"{len(sub.obligations)} obligations of C04 discharged")
+    for o in bad:
+        if o.verdict == VIOLATED:
+            rep.bad("PREMISE-C04", f"{o.rule} {o.instance}", o.where, f"the frames are signed by a function that violates C04 {o.rule}: {o.why}", key=f"PREMISE-C04|{o.rule}|{o.instance}")
+        else:
+            rep.undecided("PREMISE-C04", f"{o.rule} {o.instance}", o.where, f"C04 {o.rule} is undecided on this tree, so the signer summary is not established: {o.why}")
